@@ -10,8 +10,8 @@
    and the correspondence check reproduce).
    Specification (M.FeaturesSpec): [spec_step], written without reference to the order. *)
 From Coq Require Import List Arith Bool.
-From M Require Import Features FeaturesSpec.
-From P Require Import FeaturesP.
+From M Require Import Features FeaturesSpec FeaturesH.
+From P Require Import FeaturesP FeaturesHP.
 Import ListNotations.
 
 (* Tags: is_<tag> answers True exactly for the state's tags (plus 'accepted', tag 0, when an
@@ -161,3 +161,97 @@ Example C19_frame_nonvacuous :
                 [mkFT 0 0 (Some 1)] false) = true.
 Proof. vm_compute. split; reflexivity. Qed.
 Print Assumptions C19_frame_nonvacuous.
+
+(* ------------------------------------------------------------------------------------
+   Hook names that are ALREADY OCCUPIED when a state is entered: instance attributes the
+   model carried before the machine was attached ([pre], objects 0..k-1), another volatile
+   state's object, an active ancestor's object.  The contract is unchanged: a FRESH object on
+   every entry, removed on exit. *)
+
+(* One entry, for ANY prior record r of the model (whatever sits under the hook name) and
+   any order in which nothing ahead of Volatile cuts the chain: the name bears the object
+   numbered by the counter, the counter advances, no other name is touched. *)
+Theorem C19_volatile_entry_fresh :
+  forall (c : fcfg) (fs : list feature) (m : fmodel) (src d : fstate_id) (r : mrec) (f : nat)
+         (it : list fitem) (r' : mrec) (f' : nat) (x : bool),
+  feat_nodup fs = true -> chain_cut_free c fs = true -> fmem FVolatile fs = true ->
+  (no_retries c = true -> fs_retries (sdef c d) = 0) ->
+  (no_error_states c = true -> error_test c d = false) ->
+  enter_chain c fs m src d r f = (it, r', f', x) ->
+  m_hooks r' (fs_hook (sdef c d)) = Some f /\ f' = S f /\
+  (forall h, h <> fs_hook (sdef c d) -> m_hooks r' h = m_hooks r h).
+Proof. exact entry_fresh. Qed.
+Print Assumptions C19_volatile_entry_fresh.
+
+(* One exit: the instance attribute under the state's hook name is gone, the others stay. *)
+Theorem C19_volatile_exit_removes : forall (c : fcfg) (m : fmodel) (s : fstate_id) (r : mrec),
+  has_volatile (c_order c) = true ->
+  m_hooks (snd (exit_chain c m s r)) (fs_hook (sdef c s)) = None /\
+  (forall h, h <> fs_hook (sdef c s) -> m_hooks (snd (exit_chain c m s r)) h = m_hooks r h).
+Proof. exact exit_removes. Qed.
+Print Assumptions C19_volatile_exit_removes.
+
+(* C19_volatile for models that start with arbitrary instance attributes under hook names:
+   after every history the model holds under its state's hook name the object created at its
+   latest entry (never a pre-existing one), and under every other name what it carried from
+   the start minus what an exit removed. *)
+Theorem C19_volatile_occupied :
+  forall (c : fcfg) (h : list (fmodel * fevent)) (s0 : fstate_id)
+         (pre : fmodel -> fhook -> option nat) (k : nat) (m : fmodel) (hk : fhook),
+  wf_cfg c = true -> vol_guard c = true ->
+  m_hooks (w_m (frun_world c (init_world_p s0 pre k) h) m) hk =
+  spec_hooks c (sw_m (spec_run_world c (spec_init_p s0 pre k) h) m) hk.
+Proof. exact volatile_final_p. Qed.
+Print Assumptions C19_volatile_occupied.
+
+(* ... and traces, results and states do not depend on what the models carried. *)
+Theorem C19_retry_spec_occupied :
+  forall (c : fcfg) (h : list (fmodel * fevent)) (s0 : fstate_id)
+         (pre : fmodel -> fhook -> option nat) (k : nat) (m : fmodel),
+  feat_nodup (c_order c) = true ->
+  map (obs_core m) (frun c (init_world_p s0 pre k) h) =
+  map (sobs_core m) (spec_run c (spec_init_p s0 pre k) h).
+Proof. exact contracts_run_p. Qed.
+Print Assumptions C19_retry_spec_occupied.
+
+(* Hierarchical machines (M.FeaturesH: any non-parallel state tree, several states exited and
+   entered per transition).  On flat configurations the hierarchical engine IS the flat one,
+   so every theorem above holds for it. *)
+Theorem C19_hier_flat : forall (c : fcfg) (h : list (fmodel * fevent)) (w : world),
+  hrun (hflat c) w h = frun c w h.
+Proof. exact hrun_flat. Qed.
+Print Assumptions C19_hier_flat.
+
+(* For every state tree, every order of the mixins, all feature arguments, every history and
+   any pre-existing attributes: whatever any model holds under any name is numbered below
+   the counter — together with C19_volatile_entry_fresh (the installed object IS the counter's
+   value) every installed object is new with respect to everything held before: never the
+   previous, a stale or a pre-existing one. *)
+Theorem C19_hier_fresh :
+  forall (hc : hcfg) (s0 : fstate_id) (pre : fmodel -> fhook -> option nat) (k : nat)
+         (h : list (fmodel * fevent)),
+  (forall m hk o, pre m hk = Some o -> o < k) ->
+  fresh_inv (hrun_world hc (init_world_p s0 pre k) h).
+Proof. exact hier_fresh. Qed.
+Print Assumptions C19_hier_fresh.
+
+(* Known finding KF-C19-3: a volatile state and one of its ancestors use the same hook name.
+   @add_state_features(Volatile); A(0); P(1, hook 1) with children C(2, hook 1) [initial] and
+   D(3, hook 2); A -e0-> P, C -e1-> D.  Entering P then C installs object 0 and overwrites it
+   with object 1; leaving C for D deletes the name: the model is in P_D, P is active and was
+   entered, and nothing is left under P's hook name. *)
+Definition kf3_cfg : hcfg :=
+  mkH (mkCfg [FVolatile]
+             [(0, fs_default); (1, mkFS [] [] [] false 1 0 None); (2, mkFS [] [] [] false 1 0 None);
+              (3, mkFS [] [] [] false 2 0 None)]
+             [mkFT 0 0 (Some 1); mkFT 1 2 (Some 3)] false)
+      [(0, [0]); (1, [1]); (2, [1; 2]); (3, [1; 3])] [(1, 2)].
+Theorem C19_volatile_refuted_nested :
+  exists (hc : hcfg) (h1 h2 : list (fmodel * fevent)) (s0 : fstate_id) (m : fmodel),
+    let w1 := hrun_world hc (init_world s0) h1 in
+    let w2 := hrun_world hc w1 h2 in
+    hpath hc (m_state (w_m w1 m)) = [1; 2] /\ m_hooks (w_m w1 m) 1 = Some 1 /\
+    hpath hc (m_state (w_m w2 m)) = [1; 3] /\ fs_hook (sdef (h_cfg hc) 1) = 1 /\
+    m_hooks (w_m w2 m) 1 = None.
+Proof. exists kf3_cfg, [(0, 0)], [(0, 1)], 0, 0. vm_compute. repeat split. Qed.
+Print Assumptions C19_volatile_refuted_nested.
